@@ -104,7 +104,7 @@ def resolve_syntatic_sugar(a: ast.AST) -> ast.AST:
                     f"Too many arguments for dataclass {a.func.value} - {ast.unparse(node)}."
                 )
 
-            arg_values = a.args
+            arg_values = list(a.args)
             arg_names = [ast.Constant(value=n) for n in sig_arg_names[: len(arg_values)]]
             arg_lookup = {}
             for k in a.keywords:
